@@ -57,9 +57,9 @@ theorem netsWF_of_okB (nets : List ANet) (h : netsOKB nets = true) : NetsWF (net
     | scalar a =>
       simp only [ANetKind.okB, Bool.and_eq_true, Option.isNone_iff_eq_none, Bool.not_eq_true', List.isEmpty_eq_false_iff] at this
       exact ⟨this.2, a.okB_id this.1.1, this.1.2⟩
-    | bit bi bn i =>
+    | bit bi bn i j =>
       simp only [ANetKind.okB, Bool.and_eq_true, Bool.not_eq_true', List.isEmpty_eq_false_iff] at this
-      exact ⟨this.2, this.1.1.1.1, this.1.2⟩
+      exact ⟨this.1.2, this.1.1.1.1.1, this.1.1.2⟩
   · intro a ha b hb hab
     obtain ⟨na, hna, rfl⟩ := List.mem_map.mp ha
     obtain ⟨nb, hnb, rfl⟩ := List.mem_map.mp hb
